@@ -60,9 +60,12 @@ def render_set(parts: List[str]) -> str:
     return "{" + ",".join(sorted(parts)) + "}"
 
 
-def renderer_atoms(st: Names, trap: Any = object()) -> Callable[[Any], str]:
+def renderer_atoms(st: Names, trap: Any = None) -> Callable[[Any], str]:
+    """Component of a product-state name: the operand's own state, or "T" for anything that is not a
+    state of the operand (the stand-in for "no transition"; which value the code picks for it is not
+    specified, only that it is not one of the operand's states — a collision shows as a state's id)."""
     def r(q):
-        return "T" if q == trap and q not in st.idx else str(st(q))
+        return str(st.idx[q]) if q in st.idx else "T"
     return r
 
 
